@@ -122,7 +122,7 @@ fn k_chardat_checksum_empty_comment() {
 
 //@use_common
 
-//@unit props=C17 label=B tier=quick native=1 fn=chardat::CharacterData::from_existing bound="by execution: every truncation and 7 single-byte corruptions per byte of the four 212-byte presets under resources/tests/chardat"
+//@unit props=C17 label=B tier=quick native=1 fn=chardat::CharacterData::from_existing bound="by execution: every truncation and 7 single-byte corruptions per byte of the four 212-byte presets under resources/tests/chardat; comment fields of 161..164 bytes of 2-, 3- and 4-byte characters at every alignment"
 //@desc damaged character presets (truncated anywhere, any single byte damaged incl. enum bytes, invalid UTF-8 and missing NUL in the comment) yield None or a value, never a panic
 #[test]
 fn native_chardat_damaged_nopanic() {
@@ -130,6 +130,18 @@ fn native_chardat_damaged_nopanic() {
     let f = |b: &[u8]| { let _ = CharacterData::from_existing(b); };
     for name in ["chardat/arr.dat", "chardat/heavensward.dat", "chardat/stormblood.dat", "chardat/shadowbringers.dat"] {
         cases += native_sweep(&native_resource(name), 4096, 1, &f);
+    }
+    // comment fields filled to the last byte with multi-byte characters (no NUL inside the 164 bytes), at every alignment
+    let base = native_resource("chardat/arr.dat");
+    for unit in ["é", "日", "𝄞", "aé", "a日", "ab𝄞"] {
+        for shift in 0..4usize {
+            let mut v = base.clone();
+            let mut fill: Vec<u8> = std::iter::repeat(b'x').take(shift).collect();
+            while fill.len() < 164 { fill.extend_from_slice(unit.as_bytes()); }
+            for cut in [164usize, 163, 162, 161] { let mut w = v.clone(); w[48..48 + cut].copy_from_slice(&fill[..cut]); for k in cut..164 { w[48 + k] = 0; } native_try(&f, &w, &format!("comment of {cut} bytes of {unit:?} after {shift} ASCII bytes")); cases += 1; }
+            v[48..212].copy_from_slice(&fill[..164]);
+            native_try(&f, &v, &format!("full 164-byte comment of {unit:?} after {shift} ASCII bytes")); cases += 1;
+        }
     }
     println!("NATIVE native_chardat_damaged_nopanic cases={cases}");
 }
